@@ -612,6 +612,26 @@ def udfRun (fixed : Bool) : Option Nat → List Resp → List UOut × UFinal
       | some n => let r' := udfRun fixed none rs; (.b n :: r'.1, r'.2)
       | none => if fixed then ([], .err) else ([], .trap)       -- `s.begin.ByName` with s.begin == nil
 
+/-- Kinds of field values a data point can carry to a UDF node. Only the first four exist in the UDF
+protocol; durations come out of `eval`, the rest from Go callers. -/
+inductive FKind where
+  | int | float | str | bool | dur | nil | time | uint
+deriving DecidableEq, Repr, Inhabited
+
+def FKind.supported : FKind → Bool
+  | .int | .float | .str | .bool => true
+  | _ => false
+
+/-- `Server.writeData` / `writePoint` / `fieldsToTypedMaps` for points with a field `v` of the given kind
+next to an integer field `c`: per point written, whether `v` arrived. The snapshot's `default:
+panic("unsupported field value type")` is the trap; the repaired code skips the field. -/
+def udfWrite (fixed : Bool) : List FKind → List Bool × UFinal
+  | [] => ([], .clean)
+  | k :: ks =>
+    if k.supported then let r := udfWrite fixed ks; (true :: r.1, r.2)
+    else if fixed then let r := udfWrite fixed ks; (false :: r.1, r.2)
+    else ([], .trap)
+
 /-! ## 4. JSON node factory -/
 
 inductive GetNode where
